@@ -55,6 +55,10 @@ def configs(run, d):
         ("spawns-statlike-comm", base + b"output = file:" + out.encode() + b"\nfilter_chain = \"exclude_spawns_of:nosuchprogram,sshd\"\n"),
         # the log file opens but every write fails (ENOSPC): the exec must still be reached and get its result
         ("file-devfull", base + b"output = file:/dev/full\n"),
+        # output assigned twice, first with then without an argument (what the dtor frees must follow the LAST assignment)
+        ("output-twice", base + b"output = file:" + out.encode() + b"\noutput = devnull\n"),
+        # a limit whose buffer has no allocator slack ((max+1) % 16 == 8) and messages of exactly max, max+1, max+2 bytes
+        ("len263", base + b"log_message_max_length = 263\noutput = file:" + out.encode() + b"\nmessage_format = \"%{cmdline}\"\n"),
         ("smallmsg", base + b"log_message_max_length = 255\ndatasource_message_max_length = 255\noutput = file:" + out.encode() + b"\n"),
     ]
 
@@ -76,6 +80,7 @@ def shapes(rng, tier):
         (b"/e", [b"e"], []),
         # a record larger than a small thread stack (the library may not build it on the caller's stack)
         (b"/big", [b"x" * 20000] * 12, [b"B=1"]),
+        (b"/l263", [b"a" * 263], []), (b"/l264", [b"a" * 264], []), (b"/l265", [b"a" * 200, b"b" * 64], []),
     ]
     for _ in range(4):
         n = rng.choice([1, 2, 7, 40])
